@@ -52,6 +52,7 @@ type epDesc struct {
 	Labels             map[string]string
 	Locality           string
 	Weight             int
+	TargetPort         int // 0 = the service port
 }
 
 type cfgDesc struct {
@@ -120,12 +121,20 @@ func parseSvc(f []string) svcDesc {
 }
 
 func (e epDesc) line() []string {
-	return []string{"ep", wire.Enc(e.Host), wire.Enc(e.PortName), wire.Enc(e.IP), encMap(e.Labels), wire.Enc(e.Locality), strconv.Itoa(e.Weight)}
+	out := []string{"ep", wire.Enc(e.Host), wire.Enc(e.PortName), wire.Enc(e.IP), encMap(e.Labels), wire.Enc(e.Locality), strconv.Itoa(e.Weight)}
+	if e.TargetPort != 0 {
+		out = append(out, strconv.Itoa(e.TargetPort))
+	}
+	return out
 }
 
 func parseEp(f []string) epDesc {
 	w, _ := strconv.Atoi(f[6])
-	return epDesc{Host: wire.Dec(f[1]), PortName: wire.Dec(f[2]), IP: wire.Dec(f[3]), Labels: decMap(f[4]), Locality: wire.Dec(f[5]), Weight: w}
+	tp := 0
+	if len(f) > 7 {
+		tp, _ = strconv.Atoi(f[7])
+	}
+	return epDesc{Host: wire.Dec(f[1]), PortName: wire.Dec(f[2]), IP: wire.Dec(f[3]), Labels: decMap(f[4]), Locality: wire.Dec(f[5]), Weight: w, TargetPort: tp}
 }
 
 func (c cfgDesc) line() []string {
